@@ -33,6 +33,31 @@ class Node:
         return f"Node{self.children}"
 
 
+class KeySameRepr:
+    """dict key: hashable, sortable, equal by value - and every instance prints alike."""
+
+    def __init__(self, i):
+        self.i = i
+
+    def __hash__(self):
+        return hash(("vfkey", self.i))
+
+    def __eq__(self, o):
+        return type(o) is type(self) and self.i == o.i
+
+    def __lt__(self, o):
+        return self.i < o.i
+
+    def __repr__(self):
+        return "K"
+
+
+class KeyIdRepr(KeySameRepr):
+    """the same, with the default repr (<... object at 0x...>): equal keys of two trees print differently"""
+
+    __repr__ = object.__repr__
+
+
 class VerifFault(Exception):
     pass
 
@@ -59,7 +84,8 @@ def register():
 class FaultDuck:
     """Duck array whose `shape` or `dtype` attribute raises at its k-th access."""
 
-    def __init__(self, shape, dtype, attr, fail_at, exc):
+    def __init__(self, shape, dtype, attr, fail_at, exc, badrepr=False):
+        self._badrepr = badrepr
         self._shape = tuple(shape)
         self._dtype = dtype
         self._attr = attr
@@ -72,6 +98,11 @@ class FaultDuck:
             self.count += 1
             if self.count == self._fail_at:
                 raise self._exc(f"injected fault at access {self.count} of {attr}")
+
+    def __repr__(self):
+        if self._badrepr:
+            raise RuntimeError("repr of a released buffer")
+        return f"FaultDuck({self._shape})"
 
     @property
     def shape(self):
@@ -102,6 +133,9 @@ def build_val(s):
         return [build_val(x) for x in s[1]]
     if k == "dict":
         return {kk: build_val(v) for kk, v in s[1].items()}
+    if k == "objdict":  # ["objdict", [vals], "samerepr" | "idrepr"]: dict keyed by user objects
+        K = KeySameRepr if s[2] == "samerepr" else KeyIdRepr
+        return {K(i): build_val(v) for i, v in enumerate(s[1])}
     if k == "none":
         return None
     if k == "lit":
@@ -160,6 +194,8 @@ def build_ann(s):
         if len(s) > 2 and s[2] == "|":
             return build_ann(s[1]) | None
         return typing.Optional[build_ann(s[1])]
+    if k == "nonelit":  # the leaf type spelt literally `None` (means NoneType)
+        return None
     if k == "fwd":  # a forward reference: the NAME of a builtin type as a string ("int", "str")
         return s[1]
     if k == "int":
